@@ -8,6 +8,8 @@ from .core import *  # noqa
 from .core import _NOCONST
 from .interp import VEmptyList, VEmptySet, TOptObj, TDictRec, Interp, SpecUndef
 from . import frontend
+from . import jsontree
+from .jsontree import VJDict, VJSet, VJList, VWStr
 
 
 # =============================================================== operators
@@ -84,6 +86,14 @@ def binop(I, op, a, b):
         return I.ver.opaque_str("pct", VTuple([a, b]), I)
     if isinstance(op, ast.BitOr) and isinstance(a, VSet) and isinstance(b, VSet):
         raise Unsupported("set union")
+    if (isinstance(a, VJSet) and isinstance(b, (VJSet, VEmptySet))) or (isinstance(b, VJSet) and isinstance(a, VEmptySet)):
+        return jsontree.set_binop(I, op, a, b)
+    if isinstance(a, VEmptySet) and isinstance(b, VEmptySet) and isinstance(op, (ast.Sub, ast.BitAnd, ast.BitOr)):
+        return VEmptySet()
+    if isinstance(op, ast.Add) and (isinstance(a, VJList) or isinstance(b, VJList)):
+        xs, ys = jsontree.list_items_of(I, a), jsontree.list_items_of(I, b)
+        if xs is not None and ys is not None and not isinstance(a, VTuple) and not isinstance(b, VTuple):
+            return VJList(xs + ys)
     if I.spec:
         raise Unsupported("binop %s on %s,%s" % (type(op).__name__, type(a).__name__, type(b).__name__))
     I.raise_exc("TypeError", "unsupported operand types")
@@ -98,6 +108,10 @@ def contains(I, cont, x):
         cont = I.force(cont)
     if isinstance(cont, VEmptySet):
         return z3.BoolVal(False)
+    if isinstance(cont, VJDict):
+        return jsontree.contains(I, cont, x)
+    if isinstance(cont, (VJSet, VJList)):
+        return jsontree.set_contains(I, cont, x)
     if isinstance(cont, VMap) or isinstance(cont, VSet):
         if isinstance(x, VOpt) and not isinstance(cont.kt, TOpt) and x.t.inner == cont.kt:
             return z3.And(z3.Not(x.is_none()), z3.Select(cont.dom, x.t.dt.val(x.e)))
@@ -184,12 +198,18 @@ def subscript(I, o, k):
         for j in range(len(o.items) - 2, -1, -1):
             cur = I.ite(idx == j, o.items[j], cur)
         return cur
+    if isinstance(o, VJDict):
+        return jsontree.subscript(I, o, k)
+    if isinstance(o, VJList):
+        return jsontree.list_subscript(I, o, k)
     if isinstance(o, VDictRec):
         c = const_of(k) if isinstance(k, VStr) else _NOCONST
         if isinstance(c, str):
             if c in o.fields:
                 return o.fields[c]
             I.raise_exc("KeyError", c)
+        if not o.fields:
+            I.raise_exc("KeyError", "empty dict")
         raise Unsupported("symbolic key into literal dict")
     if isinstance(o, VStr):
         idx = to_int(k)
@@ -212,6 +232,8 @@ def slice_(I, o, lo, hi):
     o = I.force(o) if not I.spec else o
     if isinstance(o, VEmptyList):
         return VEmptyList()
+    if isinstance(o, VJList):
+        return jsontree.list_slice(I, o, lo, hi)
     if isinstance(o, VSeq):
         n = o.n
 
@@ -318,6 +340,9 @@ def store_subscript(I, o, k, v):
         o.arr = z3.Store(o.arr, idx, unwrap(v, o.et))
         o.writeback()
         return
+    if isinstance(o, VJDict):
+        jsontree.store(I, o, k, v)
+        return
     if isinstance(o, VDictRec):
         c = const_of(k) if isinstance(k, VStr) else _NOCONST
         if isinstance(c, str):
@@ -338,6 +363,9 @@ def del_subscript(I, o, k):
         kk = unwrap(k, o.kt)
         I.require_defined(z3.Select(o.dom, kk), "KeyError", "del missing key")
         map_remove(I, o, kk)
+        return
+    if isinstance(o, VJDict):
+        jsontree.delete(I, o, k)
         return
     if isinstance(o, VDictRec):
         c = const_of(k)
@@ -430,8 +458,14 @@ def get_attribute(I, o, name, default=_NOCONST):
     elif isinstance(o, VMap):
         if name in MAP_METHODS:
             return VFunc("bmethod", name, selfv=o)
-    elif isinstance(o, VDictRec):
+    elif isinstance(o, (VDictRec, VJDict)):
         if name in MAP_METHODS:
+            return VFunc("bmethod", name, selfv=o)
+    elif isinstance(o, VJList):
+        if name in SEQ_METHODS:
+            return VFunc("bmethod", name, selfv=o)
+    elif isinstance(o, VWStr):
+        if name in STR_METHODS:
             return VFunc("bmethod", name, selfv=o)
     elif isinstance(o, (VSet, VEmptySet)):
         if name in SET_METHODS:
@@ -697,9 +731,17 @@ def bi_len(I, args, kw):
         return VInt(len(v.items))
     if isinstance(v, VDictRec):
         return VInt(len(v.fields))
+    if isinstance(v, VJDict):
+        return VInt(len(v.slots))
+    if isinstance(v, (VJSet, VJList)):
+        return VInt(len(v.items))
     if isinstance(v, VStr):
         return VInt(z3.Length(v.e))
     if isinstance(v, VMapView):
+        if isinstance(v.m, VJDict):
+            return VInt(len(v.m.slots))
+        if isinstance(v.m, VDictRec):
+            return VInt(len(v.m.fields))
         return VInt(v.m.card)
     if isinstance(v, VObj):
         ci = I.class_of(v)
@@ -875,6 +917,14 @@ def _isinst(I, v, nm):
         return nm in ("str",)
     if isinstance(v, VNone):
         return nm == "NoneType"
+    if isinstance(v, VJDict):
+        return nm in ("dict", "Mapping", "MutableMapping")
+    if isinstance(v, VJSet):
+        return nm == "set"
+    if isinstance(v, VJList):
+        return nm in ("list", "Sequence")
+    if isinstance(v, VWStr):
+        return nm == "str"
     if isinstance(v, (VMap, VDictRec)):
         return nm in ("dict", "Mapping", "MutableMapping", "OrderedDict") if not (nm == "OrderedDict" and getattr(v, "order", None) is None) else False
     if isinstance(v, (VSeq, VEmptyList)):
@@ -950,6 +1000,12 @@ def bi_list(I, args, kw):
 
 
 def to_seq(I, v):
+    if isinstance(v, VJList):
+        return VJList(v.items)
+    if isinstance(v, VMapView) and isinstance(v.m, VJDict):
+        return VJList(jsontree.view_items(I, v))
+    if isinstance(v, VJDict):
+        return VJList([k for k, _ in v.slots])
     if isinstance(v, VSeq):
         return VSeq(v.arr, v.n, v.et, "list")
     if isinstance(v, VEmptyList):
@@ -1024,6 +1080,8 @@ def bi_dict(I, args, kw):
     if not args:
         return VDictRec(dict(kw))
     v = I.force(args[0])
+    if isinstance(v, VJDict):
+        return VJDict(v.slots)
     if isinstance(v, VDictRec):
         d = VDictRec(dict(v.fields))
         d.fields.update(kw)
@@ -1045,6 +1103,9 @@ def bi_set(I, args, kw):
     v = I.force(args[0])
     if isinstance(v, VSet):
         return VSet(v.dom, v.card, v.kt)
+    js = jsontree.to_set(I, v)
+    if js is not None:
+        return js
     if isinstance(v, VSeq):
         p = I.path
         s = I.fresh_value(TSet(v.et), "setof")
@@ -1074,6 +1135,10 @@ def bi_sorted(I, args, kw):
     rev = kw.get("reverse")
     if rev is not None and const_of(rev) is not False:
         raise Unsupported("sorted(reverse=...)")
+    if key is None and not I.spec:
+        r = jsontree.sorted_of(I, v)       # python-side JSON model: exact sort by forking on comparisons
+        if r is not None:
+            return r
     if isinstance(v, (VMapView, VMap)) and key is None:
         view = v if isinstance(v, VMapView) else VMapView(v, "keys")
         if view.kind == "keys" and isinstance(view.m, VMap):
@@ -1244,6 +1309,7 @@ BUILTIN_FUNCS = {
     "hash": bi_hash, "object": bi_object, "type": bi_type, "print": bi_print, "zip": bi_zip,
     "deque": bi_deque, "OrderedDict": None,
 }
+BUILTIN_FUNCS.update(jsontree.SPEC_FUNCS)
 BUILTIN_TYPES = {"int": bi_int, "float": bi_float, "bool": bi_bool, "str": bi_str, "list": bi_list,
                  "tuple": bi_tuple, "dict": bi_dict, "set": bi_set, "object": bi_object, "deque": bi_deque}
 TYPE_NAMES = {"int", "float", "bool", "str", "list", "tuple", "dict", "set", "object", "NoneType", "bytes",
@@ -1289,6 +1355,12 @@ def call_bmethod(I, o, name, args, kw):
             return VEmptyList()
     if isinstance(o, VMap):
         return map_method(I, o, name, args, kw)
+    if isinstance(o, VJDict):
+        return jsontree.method(I, o, name, args, kw)
+    if isinstance(o, VJList):
+        return jsontree.list_method(I, o, name, args, kw)
+    if isinstance(o, VWStr):
+        return jsontree.w_method(I, o, name, args, kw)
     if isinstance(o, VDictRec):
         return dictrec_method(I, o, name, args, kw)
     if isinstance(o, (VSet, VEmptySet)):
@@ -1500,9 +1572,11 @@ def dictrec_method(I, d, name, args, kw):
         default = args[1] if len(args) > 1 else VNone()
         if isinstance(c, str):
             return d.fields.get(c, default)
-        if not isinstance(k, VStr):
-            return default
         if not d.fields:
+            return default
+        if isinstance(k, VWStr):
+            raise Unsupported("abstract key lookup in a literal dict")
+        if not isinstance(k, VStr):
             return default
         raise Unsupported("symbolic key lookup in literal dict")
     if name in ("keys", "values", "items"):
@@ -1516,13 +1590,13 @@ def dictrec_method(I, d, name, args, kw):
             return VNone()
         raise Unsupported("literal dict update with symbolic map")
     if name == "pop":
-        c = const_of(args[0])
-        if isinstance(c, str):
-            if c in d.fields:
+        c = const_of(args[0]) if not jsontree.is_j(args[0]) else _NOCONST
+        if isinstance(c, str) or not d.fields:
+            if isinstance(c, str) and c in d.fields:
                 return d.fields.pop(c)
             if len(args) > 1:
                 return args[1]
-            I.raise_exc("KeyError", c)
+            I.raise_exc("KeyError", str(c))
     if name == "setdefault":
         c = const_of(args[0])
         if isinstance(c, str):
@@ -1578,6 +1652,8 @@ def str_method(I, s, name, args, kw):
         return VInt(z3.IndexOf(s.e, args[0].e, 0))
     if name == "join":
         xs = I.force(args[0])
+        if isinstance(xs, (VTuple, VJList)) and any(isinstance(x, VWStr) for x in xs.items):
+            return jsontree.w_join(I, s, xs.items)
         if isinstance(xs, VTuple):
             if not xs.items:
                 return VStr("")
@@ -1795,6 +1871,12 @@ def _iter_protocol(I, it):
         return ("concrete", [VStr(k) for k in it.fields])
     if isinstance(it, VMapView) and isinstance(it.m, VDictRec):
         return ("concrete", to_seq_items(I, it))
+    if isinstance(it, VMapView) and isinstance(it.m, VJDict):
+        return ("concrete", jsontree.view_items(I, it))     # insertion order, as python dicts
+    if isinstance(it, VJDict):
+        return ("concrete", [k for k, _ in it.slots])
+    if isinstance(it, VJList):
+        return ("concrete", list(it.items))
     if isinstance(it, VSeq):
         snap = VSeq(it.arr, it.n, it.et, it.kind)
         return ("seq", snap.n, lambda i: snap.get(i))
